@@ -2,7 +2,7 @@
 
 ENGINES = [
     {'name': 'crawler', 'path': 'mc/crawl.py',
-     'serves_properties': ['C01', 'C02', 'C03'],
+     'serves_properties': ['C01', 'C02', 'C03', 'C10', 'C13'],
      'kind_free_text': 'in-process world (mc/world.py: real Flask app, virtual clock, snapshots) + independent MPD '
                        'reader (mc/mpd.py) + independent ISO-BMFF reader (mc/bmff.py) + synthetic media writer '
                        '(mc/synth.py); clock transition system over critical instants'},
@@ -75,5 +75,26 @@ CHECKS['C03'] = dict(
          'with/without sub-samples, explicit base_data_offset, no tfdt, styp/sidx). Each response is strictly '
          'nested, payload-identical to a stored segment, trun/saio offsets address payload/senc, counts agree.',
     note='Stored view comes from mc/bmff.py scan of the stored bytes, never from the service index.')
+
+CHECKS['C10'] = dict(
+    engine='crawler',
+    technique='exhaustive DRM-selection product x stored representations; box-level diff vs stored bytes',
+    design_ref='DESIGN.md §7 C10',
+    text='Every DRM selection expressible as drm=<system>[-<location>...] (9^3-1 system x location-subset '
+         'combinations, all, all-<locations>, none, absent) x every stored file (clear and encrypted, fixture and '
+         'synthetic) x {live, vod} x {single-period, multi-period init route} (thorough: x PlayReady version x '
+         'licence-URL override) is requested and the response diffed box by box against the stored file: only '
+         'appended pssh boxes for the systems whose locations include moov (right SystemID, PRO/WRMHEADER naming '
+         'the track KID in GUID order, ClearKey v1 KID list) and mehd removal in live mode are permitted.',
+    note='SystemIDs from the DASH-IF registry; KID from the stored tenc read by mc/bmff.py.')
+CHECKS['C13'] = dict(
+    engine='crawler',
+    technique='bounded-exhaustive Range-header enumeration vs RFC 7233 reference evaluator',
+    design_ref='DESIGN.md §7 C13',
+    text='8 range-capable URLs (vod/live number and time segments, clear and cenc, multi-period, on-demand files) x '
+         'every first-last / first- / -suffix combination over {0,1,2,L-2,L-1,L,L+1,2L,10^12}, a catalogue of '
+         'malformed spellings, and every string of <= 3 (quick) / 4-5 (thorough) tokens over a 10-token alphabet; '
+         'each response compared with the slice of the un-ranged body at the same instant.',
+    note='Reference semantics in mc/range7233.py (single byte-range, clamping, suffix, unsatisfiable).')
 
 NOT_BUILT = {}
